@@ -312,6 +312,17 @@ def loadRoot (cfg : Config) (srv : Server) (shipped : Option Root) (st : St) : E
             (.ok root, clearOnline st)
           else (.ok root, st)
 
+/-- the version prefix of a file name under consistent snapshots -/
+def versioned (consistent : Bool) (v : Nat) : Option Nat := if consistent then some v else none
+
+/-- `if let Some(Ok(old)) = datastore.bytes(..).map(parse) { if root.verify_role(&old).is_ok() {
+ensure!(old.version <= new.version) } }`: a stored document blocks the new one iff it parses, still
+verifies under the current root, and is newer -/
+def storedBlocks {α : Type} (verifies : α → Bool) (version : α → Nat) (slot : Slot α) (newVersion : Nat) : Bool :=
+  match slot with
+  | .doc old => verifies old && decide (newVersion < version old)
+  | _ => false
+
 /-! ### Step 2: timestamp -/
 
 def loadTimestamp (cfg : Config) (srv : Server) (root : Root) (st : St) : Except Err Timestamp × St :=
@@ -321,11 +332,8 @@ def loadTimestamp (cfg : Config) (srv : Server) (root : Root) (st : St) : Except
   | .ok (.timestamp ts) =>
     if !rootVerify root .timestamp ts.msg ts.sigs then (.error (.verify .timestamp), st)
     else
-      let rollback : Bool :=
-        match st.ds.ts with
-        | .doc old => rootVerify root .timestamp old.msg old.sigs && decide (ts.version < old.version)
-        | _ => false
-      if rollback then (.error (.older .timestamp), st)
+      if storedBlocks (fun old => rootVerify root .timestamp old.msg old.sigs) (·.version) st.ds.ts ts.version then
+        (.error (.older .timestamp), st)
       else
         match expiryGate cfg .timestamp ts.expires st with
         | (.error e, st) => (.error e, st)
@@ -347,12 +355,17 @@ def snapshotRollback (old new : Snapshot) : Option Err :=
       | none => some (.metaMissing .snapshot)
       | some nm => if nm.version < om.version then some (.older .targets) else none
 
+def storedSnapshotBlocks (root : Root) (slot : Slot Snapshot) (sn : Snapshot) : Option Err :=
+  match slot with
+  | .doc old => if rootVerify root .snapshot old.msg old.sigs then snapshotRollback old sn else none
+  | _ => none
+
 def loadSnapshot (cfg : Config) (srv : Server) (root : Root) (ts : Timestamp) (st : St) :
     Except Err Snapshot × St :=
   match ts.snapshotMeta with
   | none => (.error (.metaMissing .timestamp), st)
   | some m =>
-    let name := FileName.snapshot (if root.consistent then some m.version else none)
+    let name := FileName.snapshot (versioned root.consistent m.version)
     let st := st.req name
     match fetchFile srv name (m.length.getD cfg.limits.maxSnapshotSize) m.hash with
     | .error _ => (.error (.transport .snapshot), st)
@@ -360,11 +373,7 @@ def loadSnapshot (cfg : Config) (srv : Server) (root : Root) (ts : Timestamp) (s
       if sn.version != m.version then (.error (.versionMismatch .snapshot), st)
       else if !rootVerify root .snapshot sn.msg sn.sigs then (.error (.verify .snapshot), st)
       else
-        let rb : Option Err :=
-          match st.ds.snap with
-          | .doc old => if rootVerify root .snapshot old.msg old.sigs then snapshotRollback old sn else none
-          | _ => none
-        match rb with
+        match storedSnapshotBlocks root st.ds.snap sn with
         | some e => (.error e, st)
         | none =>
           match expiryGate cfg .snapshot sn.expires st with
@@ -400,7 +409,7 @@ def fetchRoles (cfg : Config) (srv : Server) (snap : Snapshot) (consistent : Boo
     | some m =>
       if visited.contains r.name then (.error .duplicateRole, st)
       else
-        let name := FileName.role r.name (if consistent then some m.version else none)
+        let name := FileName.role r.name (versioned consistent m.version)
         let st := st.req name
         match fetchFile srv name (m.length.getD cfg.limits.maxTargetsSize) none with
         | .error _ => (.error (.transport .targets), st)
@@ -476,7 +485,7 @@ def loadTargets (cfg : Config) (srv : Server) (root : Root) (snap : Snapshot) (s
   match snap.find .targets with
   | none => (.error (.metaMissing .timestamp), st)
   | some m =>
-    let name := FileName.targets (if root.consistent then some m.version else none)
+    let name := FileName.targets (versioned root.consistent m.version)
     let st := st.req name
     match fetchFile srv name (m.length.getD cfg.limits.maxTargetsSize) m.hash with
     | .error _ => (.error (.transport .targets), st)
@@ -484,11 +493,8 @@ def loadTargets (cfg : Config) (srv : Server) (root : Root) (snap : Snapshot) (s
       if doc.version != m.version then (.error (.versionMismatch .targets), st)
       else if !rootVerify root .targets doc.msg doc.sigs then (.error (.verify .targets), st)
       else
-        let rollback : Bool :=
-          match st.ds.tgt with
-          | .doc old => rootVerify root .targets old.msg old.sigs && decide (doc.version < old.version)
-          | _ => false
-        if rollback then (.error (.older .targets), st)
+        if storedBlocks (fun old => rootVerify root .targets old.msg old.sigs) (·.version) st.ds.tgt doc.version then
+          (.error (.older .targets), st)
         else
           match expiryGate cfg .targets doc.expires st with
           | (.error e, st) => (.error e, st)
